@@ -106,6 +106,11 @@ pub struct Field {
     /// bit attribute: 0 = none, 1 = before, 2 = after
     #[serde(default)]
     pub doc: u8,
+    /// enum / nested kinds only: use the type declared for this earlier field instead of
+    /// declaring a new one (two fields of one bitfield sharing a bitenum is the common case in
+    /// real register maps)
+    #[serde(default)]
+    pub share_with: Option<usize>,
 }
 
 impl Field {
@@ -207,6 +212,10 @@ pub struct Layout {
     pub fields: Vec<Field>,
     /// "A" = rule-valid generated layout; "B:<name>" = boundary probe that addresses a bit >= N
     pub class: String,
+    /// `#[bitfield(.., debug)]`: only set when every field is readable and none is an array (the
+    /// generated Debug impl calls every getter without arguments)
+    #[serde(default)]
+    pub debug: bool,
 }
 
 pub fn is_native(bits: u32) -> bool {
@@ -263,6 +272,9 @@ impl Layout {
         let mut s = format!("#[bitfield(u{}", self.bits);
         if let Some(d) = &self.default {
             s += &format!(", default = {:#x}", d.value.0);
+        }
+        if self.debug {
+            s += ", debug";
         }
         s += ")] {";
         for f in &self.fields {
@@ -379,6 +391,8 @@ fn pick_kind_width(rng: &mut Rng, n: u32, arb_only: bool) -> Option<(Kind, u32)>
             // all 2^W variants are written out, so W stays small; W = 8 takes the native-u8 path
             let w = if n >= 8 && rng.chance(6, 100) {
                 8
+            } else if n >= 7 && rng.chance(4, 100) {
+                rng.range(6, 7) as u32
             } else {
                 rng.range(1, 5.min(n) as u64) as u32
             };
@@ -398,7 +412,13 @@ fn pick_kind_width(rng: &mut Rng, n: u32, arb_only: bool) -> Option<(Kind, u32)>
                 _ => rng.range(1, n.min(64) as u64) as u32,
             };
             let maxv = mask(w);
-            let want = if w == 1 { 1 } else { rng.range(1, 8.min(maxv as u64) as u64) as usize };
+            let want = if w == 1 {
+                1
+            } else if w >= 6 && rng.chance(8, 100) {
+                rng.range(9, 40) as usize
+            } else {
+                rng.range(1, 8.min(maxv as u64) as u64) as usize
+            };
             let mut discs: Vec<u128> = Vec::new();
             let mut guard = 0;
             while discs.len() < want && guard < 100 {
@@ -519,7 +539,7 @@ fn gen_field(rng: &mut Rng, n: u32, idx: usize, arb_only: bool) -> Option<Field>
         } else {
             place_parts(rng, &[w], n, bias_top, bias_bottom)
         };
-        return Some(Field { name, kind, ranges, array: None, access, qualified, type_width: None, attr_order: 0, variant_rot: 0, doc: 0 });
+        return Some(Field { name, kind, ranges, array: None, access, qualified, type_width: None, attr_order: 0, variant_rot: 0, doc: 0, share_with: None });
     }
 
     if !multi {
@@ -554,6 +574,7 @@ fn gen_field(rng: &mut Rng, n: u32, idx: usize, arb_only: bool) -> Option<Field>
             attr_order: 0,
             variant_rot: 0,
             doc: 0,
+            share_with: None,
         });
     }
 
@@ -595,6 +616,7 @@ fn gen_field(rng: &mut Rng, n: u32, idx: usize, arb_only: bool) -> Option<Field>
                 attr_order: 0,
                 variant_rot: 0,
                 doc: 0,
+                share_with: None,
             };
             if allow_overlap || !f.self_overlap() {
                 return Some(f);
@@ -616,7 +638,13 @@ pub fn gen_layout(rng: &mut Rng, id: u32, o: GenOpts) -> Layout {
         6 => 4,
         7 => 5,
         8 => rng.range(6, 7) as usize,
-        _ => 8,
+        _ => {
+            if rng.chance(1, 3) {
+                rng.range(9, 16) as usize
+            } else {
+                8
+            }
+        }
     };
     // In about half of the layouts fields may overlap each other freely; in the other half a new
     // field is rejected if it overlaps an earlier one (so that builders and commuting writers
@@ -627,13 +655,55 @@ pub fn gen_layout(rng: &mut Rng, id: u32, o: GenOpts) -> Layout {
     let mut attempts = 0;
     while fields.len() < nfields && attempts < nfields * 12 {
         attempts += 1;
-        if let Some(f) = gen_field(rng, n, fields.len(), o.arb_only) {
+        // now and then a second field of the same enum / nested type as an earlier one (the
+        // common case in real register maps: several fields sharing one bitenum)
+        let twin_of: Option<usize> = if rng.chance(12, 100) {
+            let c: Vec<usize> = fields
+                .iter()
+                .enumerate()
+                .filter(|(_, e)| e.share_with.is_none() && matches!(e.kind, Kind::EnumExh | Kind::EnumOpt { .. } | Kind::Nested))
+                .map(|(k, _)| k)
+                .collect();
+            if c.is_empty() {
+                None
+            } else {
+                Some(*rng.pick(&c))
+            }
+        } else {
+            None
+        };
+        let candidate = match twin_of {
+            Some(k) => {
+                let w = fields[k].width();
+                let ranges = place_parts(rng, &[w], n, false, false);
+                let mut f = fields[k].clone();
+                f.name = format!("f{}", fields.len());
+                f.ranges = ranges;
+                f.array = None;
+                f.share_with = Some(k);
+                f.access = if rng.chance(1, 5) { Access::R } else { Access::RW };
+                Some(f)
+            }
+            None => gen_field(rng, n, fields.len(), o.arb_only),
+        };
+        if let Some(f) = candidate {
             debug_assert!(f.top_bit() < n);
             let m = f.bitmask_all();
             if !allow_overlap && (m & used) != 0 {
                 continue;
             }
             used |= m;
+            let mut f = f;
+            // now and then reuse the enum / nested type of an earlier field of the same width
+            if matches!(f.kind, Kind::EnumExh | Kind::EnumOpt { .. } | Kind::Nested) && rng.chance(35, 100) {
+                let w = f.width();
+                let same = |a: &Kind, b: &Kind| matches!((a, b), (Kind::EnumExh, Kind::EnumExh) | (Kind::EnumOpt { .. }, Kind::EnumOpt { .. }) | (Kind::Nested, Kind::Nested));
+                if let Some(k) = fields.iter().position(|e: &Field| e.share_with.is_none() && e.width() == w && same(&e.kind, &f.kind)) {
+                    f.kind = fields[k].kind.clone();
+                    f.variant_rot = fields[k].variant_rot;
+                    f.share_with = Some(k);
+                }
+            }
             fields.push(f);
         }
     }
@@ -651,6 +721,7 @@ pub fn gen_layout(rng: &mut Rng, id: u32, o: GenOpts) -> Layout {
             attr_order: 0,
             variant_rot: 0,
             doc: 0,
+            share_with: None,
         });
     }
     for f in fields.iter_mut() {
@@ -663,6 +734,11 @@ pub fn gen_layout(rng: &mut Rng, id: u32, o: GenOpts) -> Layout {
         }
         if f.kind == Kind::EnumExh && rng.chance(60, 100) {
             f.variant_rot = rng.range(1, 255) as u32;
+        }
+    }
+    for j in 0..fields.len() {
+        if let Some(k) = fields[j].share_with {
+            fields[j].variant_rot = fields[k].variant_rot;
         }
     }
     // a keyword as field name (raw identifier): the accessors are r#type(), with_type(), set_type()
@@ -688,7 +764,8 @@ pub fn gen_layout(rng: &mut Rng, id: u32, o: GenOpts) -> Layout {
     } else {
         None
     };
-    Layout { id, bits: n, default, fields, class: "A".into() }
+    let debug = fields.iter().all(|f| f.access.readable() && f.array.is_none()) && rng.chance(15, 100);
+    Layout { id, bits: n, default, fields, class: "A".into(), debug }
 }
 
 // ------------------------------------------------------------------------------------------------
@@ -704,11 +781,12 @@ fn probe(id: u32, n: u32, name: &str, fields: Vec<Field>, default: bool) -> Layo
         default: if default { Some(DefaultDecl { value: Hex(0), form: 0 }) } else { None },
         fields,
         class: format!("B:{name}"),
+        debug: false,
     }
 }
 
 fn fld(name: &str, kind: Kind, ranges: Vec<(u32, u32)>, array: Option<Arr>) -> Field {
-    Field { name: name.into(), kind, ranges, array, access: Access::RW, qualified: false, type_width: None, attr_order: 0, variant_rot: 0, doc: 0 }
+    Field { name: name.into(), kind, ranges, array, access: Access::RW, qualified: false, type_width: None, attr_order: 0, variant_rot: 0, doc: 0, share_with: None }
 }
 
 fn kind_for_width(w: u32, rng: &mut Rng) -> Kind {
@@ -967,6 +1045,7 @@ pub fn gen_mismatch_probes(rng: &mut Rng, n: u32, first_id: u32, at_top: bool) -
             attr_order: 0,
             variant_rot: 0,
             doc: 0,
+            share_with: None,
         }];
         if hi + 1 < n {
             let top = (hi + (tw - w)).min(n - 1);
@@ -991,6 +1070,7 @@ pub fn gen_mismatch_probes(rng: &mut Rng, n: u32, first_id: u32, at_top: bool) -
             default: if rng.chance(1, 2) { Some(DefaultDecl { value: Hex(0), form: 0 }) } else { None },
             fields,
             class: format!("C:{what}{tw}-in-{w}-bits-write-only"),
+            debug: false,
         });
         id += 1;
     }
@@ -1025,6 +1105,7 @@ pub fn gen_default_probes(rng: &mut Rng, n: u32, first_id: u32) -> Vec<Layout> {
             default: Some(DefaultDecl { value: Hex(above | below), form: k as u8 }),
             fields,
             class: "D:default-has-bits-above-N".into(),
+            debug: false,
         });
     }
     out
@@ -1144,6 +1225,7 @@ mod variant_order_tests {
                     attr_order: 0,
                     variant_rot: rot,
                     doc: 0,
+                    share_with: None,
                 };
                 let mut v = f.exhaustive_variants();
                 assert_eq!(v.len(), 1 << w);
